@@ -582,7 +582,7 @@ fn plan_case(seed: u64, idx: u64, tier: &str) -> Case {
         }
     };
     let torn_at = if config == "torn" { Some(fault_pos(&mut rng)) } else { None };
-    let hard = if config == "hard" { Some((fault_pos(&mut rng), rng.below(4) as u8, rng.chance(1, 4))) } else { None };
+    let hard = if config == "hard" { Some((fault_pos(&mut rng), rng.below(HARD_KINDS.len() as u64) as u8, rng.chance(1, 4))) } else { None };
     let mode = rng.below(MODES.len() as u64) as u8;
     let eintr = *rng.pick(&[0u64, 0, 20, 100, 300]);
     let via_real_file = config != "hard" && rng.chance(1, 64);
